@@ -154,7 +154,29 @@ class Result:
             self.known_hits[entry["id"]] = entry
             self.say(f"KNOWN-FINDING: property={self.prop} {entry['id']}: {entry['what']}")
 
+    def replay_open_findings(self):
+        """Every open finding of this property is replayed on the real code and reported while it
+        still reproduces (nothing is suppressed by a finding that no longer fails)."""
+        todo = [k for k in load_known() if k.get("status") == "open" and self.prop in k["properties"] and k.get("witness") and k["id"] not in self.known_hits]
+        if not todo:
+            return
+        try:
+            p = run_venv("kf_replay.py", [], stdin=json.dumps(todo), timeout=600)
+            res = json.loads(p.stdout) if p.returncode == 0 else {}
+        except Exception:  # noqa: BLE001
+            res = {}
+        for k in todo:
+            r = res.get(k["id"])
+            if r is True:
+                self.known(k)
+            elif isinstance(r, str):
+                self.say(f"NOTE known finding {k['id']} could not be replayed: {r}")
+
     def finish(self) -> int:
+        try:
+            self.replay_open_findings()
+        except Exception:  # noqa: BLE001
+            pass
         wall = time.time() - self.t0
         ev = {
             "property_id": self.prop,
